@@ -12,3 +12,7 @@ impl State {
         State { pkg: None, medium: None }
     }
 }
+
+/// file and line of the most recent panic (written by the driver's panic hook): lets the oracle tell a panic inside
+/// rust-msi from one inside a dependency
+pub static LAST_PANIC: std::sync::Mutex<String> = std::sync::Mutex::new(String::new());
